@@ -32,6 +32,31 @@ CLAIMED = {
             "with complete content. True process interleavings are NOT decided (single-threaded engine).",
             "stub portalocker/clock contracts; MemFS semantics; two bundled files with 1-2 char contents; "
             "concurrent interleavings and the network refresh path are outside the claim."),
+    "C03": ("3/C03",
+            "Bounded, solver-decided on a tiny-name schema loaded by the real loader: for every printable-ASCII tag "
+            "text up to the stated length (quick 3-4, thorough 4-6) the real resolver (find_tag_entry family, HedTag "
+            "canonical forms, namespace variant on a two-schema group) is executed symbolically and compared with an "
+            "independent tree-walk resolver; long/short conversion inverse+idempotent, case variants, verbatim suffix.",
+            "mini schema stands for the shapes of the bundled vocabularies (one-letter node names; each structural "
+            "feature occurs once); ASCII only (casefold accelerator); table construction (_get_tag_forms) runs "
+            "concretely at load."),
+    "C04": ("3/C04",
+            "Bounded, solver-decided relational kernels: (1) for fixed annotation shapes with symbolic one-letter tags "
+            "(incl. case variants) written in every sibling order, the real duplicate check reports exactly one "
+            "repeat per extra equal sibling - so the multiset of codes is order-invariant and no repeat is missed; "
+            "(2) inserting a blank next to any comma/parenthesis of any printable-ASCII string up to the bound leaves "
+            "delimiter codes and tag texts unchanged. Spelling invariance is decided in C03/C01 on the mini schema.",
+            "NoSchema stub; fixed shapes with <=5 letters over {a,b,A}/{a,b,A,B}; trees built by public constructors; "
+            "whole-annotation rewrites under bundled schemas are outside."),
+    "C20": ("3/C20",
+            "Bounded, solver-decided: EventManager's context extraction, duration end index (bisect), onset/offset "
+            "scan and the whole _create_event_list loop are executed on stub rows with symbolic integer onsets, "
+            "durations, start/end indices and marker names, against the reference 'processes that started strictly "
+            "earlier and have not ended'. One recorded known finding (same-onset rows) is excluded from the search "
+            "and replayed concretely.",
+            "stub rows/tags exposing what the kernels read; pandas/df_util/HedString glue swapped for pass-throughs; "
+            "integer time values (float() identity on ints); histories of <=3-4 rows; Delay shifting and "
+            "needs_sorting are pandas and outside."),
 }
 
 NOT_APPLICABLE = {
